@@ -605,13 +605,20 @@ pub fn render_attrs(attrs: &[Attr], out: &mut String, ranges: &mut Ranges, spaci
             AttrKind::Word => out.push_str(&format!("#[{}]", a.name)),
             AttrKind::NameValue(v) => out.push_str(&format!("#[{} = {v}]", a.name)),
             AttrKind::List(items, delim) => {
-                let (o, c) = match delim {
+                let (o, c) = match delim % 10 {
                     1 => ('[', ']'),
                     2 => ('{', '}'),
                     _ => ('(', ')'),
                 };
                 out.push_str(&format!("#[{}{o}", a.name));
-                render_items(items, out, ranges, spacing, false);
+                if *delim >= 10 && items.len() >= 2 {
+                    // not a list: a semicolon where the first comma belongs
+                    render_item(&items[0], out, ranges, spacing);
+                    out.push_str("; ");
+                    render_items(&items[1..], out, ranges, spacing, false);
+                } else {
+                    render_items(items, out, ranges, spacing, false);
+                }
                 out.push(c);
                 out.push(']');
             }
